@@ -450,7 +450,7 @@ def _brief(op):
 
 
 SUBS = [
-    Sub("histories", exec_history, strategy=histories(), quick=2400, thorough=320_000, shards_quick=16),
+    Sub("histories", exec_history, strategy=histories(), quick=1600, thorough=320_000, shards_quick=16),
 ]
 
 KNOWN_PREDICATES = {}
